@@ -18,6 +18,7 @@ type aProfile struct {
 	prioBias  int // percentage of lock requests with the priority flag
 	updBias   int // percentage of lock requests with the update flag
 	longTimes bool
+	persist   bool // engine P: Timeout 0, expiries far from the restart instant, aof flags frequent, short ticks only
 }
 
 var aProfiles = map[string]aProfile{
@@ -30,6 +31,20 @@ var aProfiles = map[string]aProfile{
 	"C15": {prop: "C15", values: 70, timers: 8, bursts: false, prioBias: 3, updBias: 15},
 	"C17": {prop: "C17", values: 10, timers: 22, bursts: true, prioBias: 10, updBias: 8},
 }
+
+const pKeyShortUpd = "C07:expired-terms-record-skipped-at-load"
+
+var pKnownShortUpd = vIsKnown(pKeyShortUpd)
+var pShortUpdExcluded int
+
+const pKeyLateDepth = "C07:depth-lost-when-persisted-after-relock"
+
+var pKnownLateDepth = vIsKnown(pKeyLateDepth)
+
+const pKeyUpdCreate = "C07:compaction-drops-creating-record-with-update-flag"
+
+var pKnownUpdCreate = vIsKnown(pKeyUpdCreate)
+var pUpdCreateExcluded int
 
 func pct(t *rapid.T, label string) int { return rapid.IntRange(0, 99).Draw(t, label) }
 
@@ -131,6 +146,13 @@ func aGenOps(t *rapid.T, e *aEnv, p aProfile, fresh *int) []aOp {
 		}
 	}
 	r := pct(t, "kind")
+	if p.persist && r < p.timers {
+		if e.now-aEpoch >= 10 {
+			r = p.timers // the virtual clock must stay behind the wall clock
+		} else {
+			return []aOp{{K: "tick", N: rapid.SampledFrom([]int{1, 1, 2, 3}).Draw(t, "ptickN"), X: pct(t, "tickOrder") < 50}}
+		}
+	}
 	if r < p.timers {
 		n := rapid.SampledFrom([]int{1, 1, 1, 1, 2, 2, 3, 5, 9, 17, 40, 61, 130}).Draw(t, "tickN")
 		if p.longTimes && pct(t, "tickLong") < 3 {
@@ -260,6 +282,71 @@ func aGenOps(t *rapid.T, e *aEnv, p aProfile, fresh *int) []aOp {
 		if pct(t, "lockVal") < p.values {
 			op.V = aGenValue(t, tk, key)
 		}
+		if p.persist && op.V != nil {
+			// persistence checks follow the value attached when a hold is created; value operations on re-locks,
+			// updates and unlocks of persisted holds are left to C15 (their persistence is not compared)
+			if tk != nil && len(tk.holders) > 0 {
+				op.V = nil
+			} else if op.V.Op != "set" && op.V.Op != "push" && op.V.Op != "incr" {
+				op.V = nil
+			} else {
+				op.V.FL = false
+			}
+		}
+		if p.persist {
+			// nothing may expire or time out during the case, and no deadline may fall near the restart instant
+			op.T, op.TF = 0, op.TF&^(tfMINUTE|tfWWU)
+			off := e.c.EpochOff
+			op.EF &^= efMINUTE | efUNLIMITED | 0x1300
+			switch x := pct(t, "pExpClass"); {
+			case x < 12:
+				op.E = rapid.SampledFrom([]int{20, 25, 30}).Draw(t, "pShort") // expires during the longer outages
+				if op.E+12 > off-15 && op.E < off+25 {
+					op.E = off + 60
+				}
+			case x < 60:
+				op.E = off + rapid.SampledFrom([]int{40, 120, 600, 3000, 60000}).Draw(t, "pLong")
+				if op.E > 65535 {
+					op.E = 65535
+				}
+			case x < 80:
+				op.E, op.EF = rapid.SampledFrom([]int{5, 10, 60, 1000}).Draw(t, "pMinutes"), op.EF|efMINUTE
+			case x < 92:
+				op.E, op.EF = rapid.IntRange(1, 0xfffe).Draw(t, "pUnlimited"), op.EF|efUNLIMITED
+			default:
+				op.E = 0
+			}
+			if pKnownUpdCreate && op.F&fUPDATE != 0 && (tk == nil || tk.holder(aLockId(op.Id)) == nil) {
+				// known finding C07:compaction-drops-creating-record-with-update-flag: a hold created by a request that carried
+				// the update flag loses its creating record at the next compaction once its terms changed (depth is lost)
+				op.F &^= fUPDATE
+				pUpdCreateExcluded++
+			}
+			if pKnownShortUpd || pKnownLateDepth {
+				// known findings C07:expired-terms-record-skipped-at-load and C07:depth-lost-when-persisted-after-relock:
+				// the log encodes a hold as a sequence of records that recovery filters one by one (records whose own
+				// terms have expired are skipped; a hold first persisted after a re-lock gets a single record), so
+				// re-locks and updates of a live hold do not survive a restart faithfully. While either is listed a
+				// persisted history never re-locks or updates a live hold: the request gets a fresh LockId instead.
+				if tk != nil && tk.holder(aLockId(op.Id)) != nil {
+					*fresh++
+					op.Id = 100 + *fresh
+					pShortUpdExcluded++
+				}
+				if op.F&fSHOW != 0 && op.F&fUPDATE != 0 {
+					op.F &^= fUPDATE // show+update addresses the oldest holder: an update of a live hold
+					pShortUpdExcluded++
+				}
+			}
+			switch x := pct(t, "pAofFlag"); {
+			case x < 35:
+				op.EF |= 0x0100
+			case x < 45:
+				op.EF |= 0x0200
+			case x < 50:
+				op.EF |= 0x1000
+			}
+		}
 		return []aOp{op}
 	}
 	// UNLOCK
@@ -286,7 +373,7 @@ func aGenOps(t *rapid.T, e *aEnv, p aProfile, fresh *int) []aOp {
 	if pct(t, "unlockPrioFlag") < 3 {
 		op.TF |= tfPRIO
 	}
-	if pct(t, "unlockVal") < p.values {
+	if pct(t, "unlockVal") < p.values && !p.persist {
 		op.V = aGenValue(t, tk, key)
 	}
 	return []aOp{op}
